@@ -402,10 +402,12 @@ def run(ck):
         traces.append(dbgen.gen_view_trace(ck.rng, length=ck.rng.randint(10, 40), strays=False))
     for _ in range(60 if quick else 2400):
         traces.append(gen_timeline(ck.rng, length=ck.rng.randint(6, 14)))
+    ncorp = len(dbprops.load_corpus("C05"))
+    traces = traces[:ncorp] + [dbgen.with_lag(ck.rng, dbgen.with_forks(ck.rng, t, 2, 0.3), 0.2) for t in traces[ncorp:]]   # classes on restored / caught-up replicas
     if not ok:
         return
     results, _ = dbprops.run_db_property(ck, eng, traces, [mon_c05, mon_view_c05],
-                                         with_replicas=False, nontrivial=nontrivial)
+                                         with_replicas=True, nontrivial=nontrivial)
     ck.sample({"trace": dbengine.trace_to_json(traces[-1][:8])})
     lap("db_engine_impl_monitors_model")
     if results is None:
